@@ -20,12 +20,15 @@ class C03(object):
     assumptions = ['a ConvergenceError on either side makes the pair inconclusive (reduction legitimately changes '
                    'conditioning); any other exception on exactly one side is a violation',
                    'cyclic class: agreement bound 1e-8*max(1,|v|) with both runs at tolerance 1e-13']
-    required_counters = ('pairs.compared', 'values.compared', 'alias.pairs', 'ic_on_alias.pairs')
+    required_counters = ('pairs.compared', 'values.compared', 'alias.pairs', 'ic_on_alias.pairs', 'model_text.pairs')
 
     def n_cases(self, tier):
         return 300 if tier == 'quick' else 30000
 
     def make_case(self, rng, idx, tier):
+        if idx % 30 == 29:
+            from vf.gen import modelspec as M
+            return {'kind': 'model_text', 'mspec': M.gen_spec(rng, n_zones=rng.choice([1, 2]), maxtime=3)}
         cyclic = rng.random() < 0.4
         spec = G.gen_affine(rng, n_simul=rng.randint(1, 5), cyclic=cyclic, rho=rng.choice([0.1, 0.3, 0.5]),
                             maxtime=rng.randint(1, 10), tol=1e-13, aliases=False, decos=False, ics=False)
@@ -58,7 +61,68 @@ class C03(object):
             return type(e).__name__, str(e)[:200]
         return 'ok', dict(s.TimeSeries)
 
+    def run_model_text(self, case):
+        """The text a generated model emits (dozens of alias-like wiring equations written by the real builder),
+        solved with reduction on and off at a tight tolerance."""
+        from vf.gen import modelspec as M
+        from sfc_models.equation_solver import EquationSolver, ConvergenceError
+        rec = monitors.Recorder()
+        b = M.build(case['mspec'], solve=False)
+        shape = 'model_text|' + M.shape_of(case['mspec'])
+        if b.error is not None:
+            return {'verdict': 'notjudged', 'shape': shape + '|construction'}
+        try:
+            with contextlib.redirect_stdout(io.StringIO()):
+                mod = b.model
+                mod._GenerateFullSectorCodes()
+                mod._GenerateEquations()
+                mod._FixAliases()
+                mod._GenerateRegisteredCashFlows()
+                mod._ProcessExogenous()
+                text = mod._CreateFinalEquations()
+        except Exception as e:
+            return {'verdict': 'notjudged', 'shape': shape + '|' + type(e).__name__}
+        out = {}
+        for red in (False, True):
+            s = EquationSolver(run_equation_reduction=red)
+            s.MaxIterations = 6000
+            s.ParameterErrorTolerance = 1e-12
+            try:
+                with contextlib.redirect_stdout(io.StringIO()):
+                    s.ParseString(text)
+                    s.SolveEquation()
+                out[red] = dict(s.TimeSeries)
+            except ConvergenceError:
+                return {'verdict': 'notjudged', 'shape': shape + '|ConvergenceError'}
+            except Exception as e:
+                out[red] = e
+        a, bb = out[False], out[True]
+        if isinstance(a, Exception) or isinstance(bb, Exception):
+            if isinstance(a, Exception) and isinstance(bb, Exception):
+                return {'verdict': 'notjudged', 'shape': shape + '|both_raise'}
+            rec.violate('one_side_raised', {'unreduced': repr(a)[:200] if isinstance(a, Exception) else 'ok',
+                                            'reduced': repr(bb)[:200] if isinstance(bb, Exception) else 'ok'})
+            return {'verdict': 'violated', 'shape': shape, 'counters': rec.counters, 'violations': rec.violations}
+        rec.count('pairs.compared')
+        rec.count('model_text.pairs')
+        if sorted(a) != sorted(bb):
+            rec.violate('variable_lost_or_added', {'only_unreduced': sorted(set(a) - set(bb))[:8],
+                                                   'only_reduced': sorted(set(bb) - set(a))[:8]})
+        else:
+            for n in a:
+                for k, (x, y) in enumerate(zip(a[n], bb[n])):
+                    rec.count('values.compared')
+                    if not abs(x - y) <= 1e-7 * max(1.0, abs(x), abs(y)):
+                        rec.violate('value_differs', {'var': n, 'k': k, 'unreduced': x, 'reduced': y, 'model': shape})
+                        break
+                if rec.violations:
+                    break
+        return {'verdict': 'violated' if rec.violations else 'held', 'nontrivial': True, 'shape': 'model_text',
+                'counters': rec.counters, 'violations': rec.violations, 'obs': {'n_vars': len(a), 'shape': shape}}
+
     def run_case(self, case):
+        if case.get('kind') == 'model_text':
+            return self.run_model_text(case)
         rec = monitors.Recorder()
         spec = case['spec']
         oa, a = self.solve(case['text'], False)
